@@ -71,6 +71,20 @@ class C16(pure.Spec):
                 k += 1
                 pong_times.append(now)
                 r = take()
+            elif ev[k] == 3:
+                # the clock advances and a Pong arrives before the task runs again
+                now += ev[k + 1]
+                k += 2
+                if now > deadline:
+                    return None
+                pong_times.append(now)
+                if now == deadline:
+                    deadline += i_ms
+                r = take()
+            elif ev[k] == 4:
+                # a Ping of the peer's own: the task is polled, no time passes
+                k += 1
+                r = take()
             else:
                 k += 1
                 pos += 1
